@@ -234,7 +234,13 @@ def run(tier, seed, rng, known, replay):
             env.rec.on_action = hook
             env.rec.reset()
             try:
-                ok = c.set('k', BIG, retry=True)
+                if k == 1:
+                    ok = c.set('k', BIG, retry=True)
+                elif k == 3:
+                    c['k'] = BIG            # operator form: retry=True by design
+                    ok = True
+                else:
+                    ok = c.add('k', BIG, retry=True)
             finally:
                 env.rec.on_action = None
                 try:
@@ -242,9 +248,16 @@ def run(tier, seed, rng, known, replay):
                 except Exception:
                     pass
             trace = ','.join(env.rec.actions)
-            if not (ok is True and c['k'] == BIG and trace.count('BEGIN_BUSY') == k):
+            try:
+                stored = c.get('k', 'MISSING')
+                clean = not [w for w in c.check() if not str(w.message).startswith('empty directory')]
+            except Exception as e:
+                stored, clean = 'raised %s' % type(e).__name__, False
+            if not (ok is True and stored == BIG and clean and trace.count('BEGIN_BUSY') == k):
                 violations.append({'replay': {'property': 'C14', 'call': 'set retry=True', 'released_after': k, 'trace': trace},
-                                   'found_input': True, 'what': 'retry=True did not wait and succeed (released after %d attempts): %s' % (k, trace)})
+                                   'found_input': True,
+                                   'what': 'retry=True did not wait and then succeed (lock released after %d busy attempts): returned %r, value read back %s, check clean %s, trace %s'
+                                           % (k, ok, 'ok' if stored == BIG else repr(stored)[:40], clean, trace)})
             else:
                 traces_ok += 1
             c.close()
